@@ -193,7 +193,7 @@ def run(ctx):
         cases = [fc.case_from_json(c) for c in cs if not isinstance(c, dict)]
         tags = [(set(), 'replay')] * len(cases)
     else:
-        cases, tags = gen_cases(ctx, 700 if ctx.quick() else 12000)
+        cases, tags = gen_cases(ctx, 700 if ctx.quick() else 6000)
     results = fc.evaluate(ctx, cases)
     n_spec, n_model = fc.compare(ctx, cases, results, 'MBAP reader')
     ctx.oblige('correspondence:framed-reader-tcp', n_spec == 0 and n_model == 0, f'{n_model} model / {n_spec} spec mismatches over {len(cases)} cases')
